@@ -1,7 +1,7 @@
 """Per-property orchestration: Lean obligations + source pins + harness run -> verdict + evidence."""
 import os, json, re, subprocess, time, hashlib
 
-V = "/verif"
+V = os.environ.get("VERIF_HOME", "/verif")
 LEAN = os.path.join(V, "lean")
 BIN = os.path.join(V, "bin")
 ALLOWED_AXIOMS = {"propext", "Classical.choice", "Quot.sound"}
@@ -66,7 +66,7 @@ def audit(pid, state):
                     "  for n in names.qsort (fun a b => a.toString < b.toString) do\n"
                     "    let ax ← liftCoreM (collectAxioms n)\n"
                     "    logInfo m!\"AUDIT {n} :: {ax.toList}\"\n" % (mod, mod))
-        p = subprocess.run(["lake", "env", "lean", script], cwd=LEAN, capture_output=True, text=True)
+        p = subprocess.run(["lake", "env", "lean", script], cwd=LEAN, capture_output=True, text=True, errors="replace")
         out = p.stdout + p.stderr
         if p.returncode != 0:
             problems.append({"obligation": mod, "why": "audit script failed", "log": out[-1500:]})
@@ -91,7 +91,7 @@ def check_pins(pid, state):
         return [], []
     pinfile = os.path.join(V, "pins.json")
     expected = json.load(open(pinfile)) if os.path.exists(pinfile) else {}
-    p = subprocess.run([os.path.join(BIN, "harness"), "tool", "pins", "-"], capture_output=True, text=True)
+    p = subprocess.run([os.path.join(BIN, "harness"), "tool", "pins", "-"], capture_output=True, text=True, errors="replace", env=dict(os.environ, VERIF_REPO=os.environ.get("VERIF_REPO", "/repo")))
     current = json.loads(p.stdout)
     obligations, problems = [], []
     for fn in want:
@@ -118,21 +118,21 @@ def run_harness(pid, tier, seed, state):
     if os.path.exists(out):
         os.remove(out)
     cmd = [os.path.join(BIN, "harness"), "run", "--prop=" + pid, "--tier=" + tier, "--seed=%d" % seed, "--out=" + out]
-    p = subprocess.run(cmd, cwd=V, capture_output=True, text=True)
+    p = subprocess.run(cmd, cwd=V, capture_output=True, text=True, errors="replace")
     res = json.load(open(out)) if os.path.exists(out) else None
     text = p.stdout + p.stderr
     if res is not None and cfg.get("race"):
         # the same workload under the race detector
         import prep
         rb = os.path.join(BIN, "harness-race")
-        rc, o = prep.sh(["go", "build", "-race", "-tags", "verif", "-o", rb, "."], cwd=os.path.join(V, "harness"), env=prep.GOENV)
+        rc, o = prep.sh(["go", "build"] + (["-modfile=" + os.path.join(BIN, "alt.mod")] if prep.REPO != "/repo" else []) + ["-race", "-tags", "verif", "-o", rb, "."], cwd=os.path.join(V, "harness"), env=prep.GOENV)
         if rc != 0:
             text += "\nrace build failed:\n" + o[-2000:]
         else:
             out2 = os.path.join(BIN, "run_%s_race.json" % pid)
             if os.path.exists(out2):
                 os.remove(out2)
-            p2 = subprocess.run(cmd[:-1] + ["--out=" + out2, "--bin=" + rb, "--workers=4", "--gomaxprocs=8"], cwd=V, capture_output=True, text=True)
+            p2 = subprocess.run(cmd[:-1] + ["--out=" + out2, "--bin=" + rb, "--workers=4", "--gomaxprocs=8"], cwd=V, capture_output=True, text=True, errors="replace")
             text += p2.stdout + p2.stderr
             if os.path.exists(out2):
                 r2 = json.load(open(out2))
@@ -254,7 +254,7 @@ def replay(pid, path, state):
     if not m:
         print("no case descriptor in replay file"); return 2
     cmd = [os.path.join(BIN, "harness"), "worker", "--prop=" + pid, "--tier=" + m.group(2), "--seed=" + m.group(1), "--only=" + m.group(3)]
-    p = subprocess.run(cmd, capture_output=True, text=True)
+    p = subprocess.run(cmd, capture_output=True, text=True, errors="replace")
     bad = 0
     for ln in p.stdout.splitlines():
         if ln.startswith("F\t"):
